@@ -71,3 +71,53 @@ def c13(work, tier, seed, replay):
 
 
 CHECKS["C13"] = c13
+
+
+# ----------------------------------------------------------------------------- C15
+
+def c15(work, tier, seed, replay):
+    rep = Report("C15", tier, seed, "model_checking")
+    rng = random.Random(seed)
+    build_driver()
+    scen = []
+    for n in ((1, 2) if tier == "quick" else (1, 2, 3)):
+        c = {"NLogs": n}
+        cfg = cfg_text(spec="Spec", constants=c, invariants=["OnlyVerifiedArePushed", "EveryLogAttempted", "ErrorIffSomeLogFailed", "EmitDist"], properties=["Terminates"])
+        r = require_ok(tlc(work, "Distributor", cfg, name="MC_Distributor%d" % n, timeout=3000), "design check Distributor(%d logs)" % n)
+        rep.add_model("MC_Distributor(%d logs: all assignments of 8 witness answers x 6 distributor answers)" % n, r)
+        scen += sorted(set(r.prints("DIST")))
+    # 4..6 logs: sampled assignments (simulation mode)
+    for n in ((4,) if tier == "quick" else (4, 5, 6)):
+        c = {"NLogs": n}
+        sr = tlc(work, "Distributor", cfg_text(spec="Spec", constants=c, invariants=["EmitDist"]), name="sim-dist%d" % n, workers=1,
+                 args=["-simulate", "num=%d" % (150 if tier == "quick" else 1500), "-depth", "12", "-seed", str(seed + n)], timeout=600)
+        scen += sorted(set(sr.prints("DIST")))
+        rep.cov["exhaustive"] = False
+    sp, tp = work.path("dist.jsonl"), work.path("dist.ndjson")
+    open(sp, "w").write("\n".join(scen) + "\n")
+    o, dt = run_driver(["dist", "-in", sp, "-out", tp, "-seed", str(seed), "-workers", str(NCPU)], timeout=3000)
+    rep.notes.append(o.strip())
+    events = read_ndjson(tp)
+    jr = tlc(work, "MC_Trace_Dist", cfg_text(spec="TSpec", constants={"NLogs": 1, "TraceFile": tp}, action_constraints=["Monitor"], postcondition="Done"),
+             name="judge-dist", workers=1, timeout=3600, heap="12g")
+    if not jr.ok:
+        raise Inconclusive("distributor judge failed: %s\n%s" % (jr.error or jr.violated, jr.out[-3000:]))
+    fails = [["FAIL", f["id"], f["name"], f["i"], f["run"], f["k"], f["sig"]] for f in map(json.loads, jr.prints("FAIL"))]
+    seqfam.settle(rep, "C15", fails, events, {"NLogs": 0})
+    rep.cov["evaluations"] = len(scen)
+    rep.cov["traces_validated_against_impl"] = sum(1 for e in events if e["e"] == "dist.start")
+    rep.cov["distinct_nontrivial"] = len(set(scen))
+    rep.cov["puts_observed"] = sum(1 for e in events if e["e"] == "dist.put")
+    rep.cov["rule"] = ("TLC enumerates every assignment of witness answers {valid, missing, error, wrong log key, no witness signature, invalid witness signature, corrupted, other log's checkpoint} and "
+                       "distributor answers {200, 404, 500, connection error, redirect 302, redirect 307} to 1..3 logs (thorough; quick 1..2) and samples assignments for up to 6 logs; each is executed on the real "
+                       "DistributeOnce with a stub witness and a stub distributor; Trace_Dist judges: PUT only for verified checkpoints, bytes identical, path = /distributor/v0/logs/<id>/byWitness/<name>/checkpoint, "
+                       "every log attempted, error iff some log failed; distinct = distinct scenarios")
+    rep.cov.setdefault("exhaustive", True)
+    st = [e for e in events if e["e"] == "dist.start"][:1]
+    if st:
+        rep.sample([e for e in events if e.get("run") == st[0]["run"]])
+    rep.assumptions += ["a 307 redirect (method and body preserved) whose target answers 200 counts as delivered; a 302 (PUT turned into GET) as failed"]
+    return rep.finish()
+
+
+CHECKS["C15"] = c15
